@@ -126,6 +126,7 @@ func runWire(k *hcase, in string) (res result) {
 	s := media.NewStream(path, wireSdp(k))
 	media.Regist(s)
 	defer func() {
+		defer func() { recover() }() // a panic in Close was already reported by the handler below
 		media.Unregist(s)
 		s.Close()
 	}()
